@@ -168,6 +168,10 @@ Definition brainpool13_scheme (g : Z) : Z :=
   else if g =? g_brainpoolP384r1 then ss_ecdsa_brainpoolP384r1tls13_sha384
   else ss_ecdsa_brainpoolP512r1tls13_sha512.
 
+(* index of ecdsa_brainpoolP*r1tls13_* in more_sig_schemes' code table *)
+Definition brainpool13_more_sig (g : Z) : Z :=
+  if g =? g_brainpoolP512r1 then 2 else if g =? g_brainpoolP384r1 then 3 else 4.
+
 Definition sig_hashes_to_list (st : Settings) (small_key : bool) (cert : option Cert) (v : Z) : list Z :=
   let alg := match cert with Some c => Some (ct_alg c) | None => None end in
   let is a := match alg with Some x => x =? a | None => false end in
@@ -457,7 +461,9 @@ Definition check_chain (who : Z) (st : Settings) (v : Z) (c : Cert) : res unit :
   if a =? 2 then
     if (v <=? 3) && negb (memZ (ct_curve c) (st_curves st)) then al a_handshake_failure
     else if (4 <=? v) && negb (tls13_cert_curve_ok (ct_curve c)) then al a_illegal_parameter
-    else if (4 <=? v) && negb (memZ (curve_hash (ct_curve c)) (st_ecdsa_hashes st)) then al a_illegal_parameter
+    else if (4 <=? v) && negb (if old_brainpool (ct_curve c)
+                               then memZ (brainpool13_more_sig (ct_curve c)) (st_more_sigs st)   (* /repo 3899346 *)
+                               else memZ (curve_hash (ct_curve c)) (st_ecdsa_hashes st)) then al a_illegal_parameter
     else Ok tt
   else if (a =? 3) || (a =? 4) then
     if v <? 3 then al a_illegal_parameter
@@ -597,10 +603,7 @@ Definition client_legacy (c : Client) (ch : CHello) (fl : Flight)
                       then client_alert a_insufficient_security else Ok tt
           | None => Ok tt end
         else Ok tt) ;;
-  _ <- (match fl_cert_req fl with
-        | Some algs => if (v =? 3) && negb (existsb (fun a => a mod 256 =? sa_rsa) algs)
-                       then client_alert a_handshake_failure else Ok tt
-        | None => Ok tt end) ;;
+  (* /repo a52e2eb: a CertificateRequest without rsa_pkcs1 algorithms is no longer refused by itself *)
   (* repaired client: an EdDSA certificate is refused with an alert before TLS 1.2 *)
   _ <- (match my_cert with
         | Some mc => if fix_eddsa_client && (v <? 3) && ((ct_alg mc =? 3) || (ct_alg mc =? 4))
@@ -638,10 +641,8 @@ Definition client_legacy (c : Client) (ch : CHello) (fl : Flight)
   _ <- (match my_cert with
         | Some mc => if (v <? 3) && ((ct_alg mc =? 3) || (ct_alg mc =? 4)) then client_crash else Ok tt
         | None => Ok tt end) ;;
-  (* the client's receive limit is already in force when the server's plaintext NewSessionTicket arrives *)
-  _ <- (match fl_rsl fl, st_rsl st with
-        | Some _, Some mine => if Z.min two14 mine <? fl_nst_len fl then client_alert a_record_overflow else Ok tt
-        | _, _ => Ok tt end) ;;
+  (* /repo 609ebb4: the client's own record_size_limit takes effect with its READ state, so the server's
+     plaintext NewSessionTicket (fl_nst_len) is no longer subject to it *)
   let limits := match fl_rsl fl, st_rsl st with
                 | Some r, Some mine => (r, Z.min two14 mine)
                 | Some r, None => (r, two14)       (* unreachable for an honest server *)
@@ -755,7 +756,13 @@ Definition client_tls13 (c : Client) (ch : CHello) (fl : Flight)
                                 else client_alert a_illegal_parameter end
         | None => Ok tt end) ;;
   _ <- (match fl_psk fl, fl_cert fl with
-        | None, Some sc => check_chain 1000 st (fl_version fl) sc
+        | None, Some sc =>
+            _ <- check_chain 1000 st (fl_version fl) sc ;;
+            (* /repo 7ffe769: the CertificateVerify scheme has to fit the key of the server's certificate *)
+            (match fl_sig fl with
+             | Some sg => if memZ sg (sig_hashes_to_list st false (Some sc) 4) then Ok tt
+                          else client_alert a_illegal_parameter
+             | None => Ok tt end)
         | None, None => client_crash
         | Some _, _ => Ok tt end) ;;
   let my_cert := match fl_cert_req fl with Some _ => cl_cert c | None => None end in
